@@ -914,7 +914,7 @@ fn maha_data(c: &mut Case) {
 
 // ------------------------------------------------------------------------------------ length contracts
 
-const REJ_LMAX: usize = 8;
+const REJ_LMAX: usize = 34; // every ordered pair of different lengths 0..=34 (covers block-wise loops of width 4, 8, 16, 32)
 const REJ_SIMPLE_KINDS: u64 = 7;
 const REJ_SIMPLE: u64 = REJ_SIMPLE_KINDS * 2 * ((REJ_LMAX as u64 + 1) * (REJ_LMAX as u64));
 const REJ_MAHA_N: u64 = 4;
